@@ -1010,6 +1010,77 @@ def customs_in_zones(chk, uwg):
                '24 complete finite in-bound records' % (len(zones), ' '.join(zones)), mismatches=bad, branches=br)
 
 
+def schedule_refusals(chk, uwg, work):
+    """Seventh round (family in harness/x2_util.py): the constructor's refusals CELL BY CELL. The shipped large-office
+    schedule set with ONE bad cell - negative, slightly negative, negative integer, text, None, nan, a list - at the first /
+    a middle / the last position (day type 0 hour 0, day type 1 hour 13, day type 2 hour 23) of each of the seven weeks,
+    and weeks with 2 / 4 day types, 23 / 25 hours: the constructor refuses the set, or the set is simulated (1-day run
+    started on the day type that holds the bad cell) to 24 complete finite records."""
+    import x2_util as X
+    quick = chk.tier == 'quick'
+    lib_s = T.build_schedule(uwg, {})[1]
+    members = X.bad_cell_members(chk.rng, quick)
+    accepted, br, bad, n = [], {}, 0, 0
+    for label, w, build, pos, kind in members:
+        n += 1
+        week = build(getattr(lib_s, w))
+        try:
+            bem, sch = T.build_schedule(uwg, {w: week})
+        except Exception:  # noqa: BLE001 - refused: outside the clause
+            br['refused:' + kind] = br.get('refused:' + kind, 0) + 1
+            continue
+        br['accepted:%s (%s)' % (kind, 'set point' if w in ('cool', 'heat') else 'fraction')] = \
+            br.get('accepted:%s (%s)' % (kind, 'set point' if w in ('cool', 'heat') else 'fraction'), 0) + 1
+        accepted.append((label, w, week, pos, kind, bem, sch))
+    # simulate the accepted ones: large deviations first; quick tier: at most 4 runs, one per (kind, fraction / set point)
+    order = {'negative': 0, 'negative integer': 1, 'nan': 2, 'slightly negative': 3}
+    accepted.sort(key=lambda a: order.get(a[4], 9))
+    seen, runs = set(), []
+    for a in accepted:
+        key = (a[4], a[1] in ('cool', 'heat')) if quick else (a[4], a[1], a[3])
+        if key in seen:
+            continue
+        seen.add(key)
+        runs.append(a)
+    runs = runs[:4] if quick else runs[:40]
+    for label, w, week, pos, kind, bem, sch in runs:
+        month, day = X.DAYTYPE_START[pos[0]] if pos else (1, 2)
+        case = {'schedule_set': 'the shipped largeoffice / pst80 set with ' + label,
+                'constructor argument changed': w, 'value of the cell': repr(week[pos[0]][pos[1]]) if pos else None,
+                'rows x hours of the week': [len(d) for d in week], 'month': month, 'day': day, 'nday': 1, 'dtsim': 300}
+        with core.quiet():
+            m = uwg.UWG.from_param_file(U.rp(U.PARAM_SGP), epw_path=U.rp(U.EPW_SGP), new_epw_dir=work, new_epw_name='c10x.epw')
+        m.bld, m.zone, m.month, m.day, m.nday, m.dtsim = [('largeoffice', 'pst80', 1.0)], '1A', month, day, 1, 300
+        msg = None
+        try:
+            m.ref_bem_vector, m.ref_sch_vector = m._check_reference_data([bem], [sch])
+            with core.quiet():
+                m.generate()
+                m.simulate()
+            msg = finite_records(m)
+            br['simulated'] = br.get('simulated', 0) + 1
+        except Exception as e:  # noqa: BLE001
+            msg = 'accepted by SchDef(), but the run raised %s: %s' % (type(e).__name__, str(e).split('\n')[0][:140])
+        if msg and kind == 'nan' and w in ('cool', 'heat') and KNOWN_NAN_SETPOINT:
+            chk.notes.append('unchanged-tree observation (recorded, not judged): SchDef accepts nan as a %s set point; %s' % (w, msg))
+            continue
+        if msg:
+            bad += 1
+            if bad <= 3:
+                chk.violation('impl-violation', 'schedule set accepted by the SchDef constructor cannot be simulated',
+                              case=case, observed=msg, expected='refused by the constructor (as every other malformed cell is), or 24 '
+                                                                'complete finite records')
+    if not any(k.startswith('refused:negative') for k in br) and not bad and not any(r[4] == 'negative' for r in runs):
+        raise core.Infra('negative fractions are neither refused nor simulated: %s' % sorted(br))
+    chk.direct('schedule-constructor-refusals(one bad cell per kind, position and week; row / hour counts)', n, n,
+               schedule_refusals.__doc__.replace('\n', ' ').replace('    ', ' ') + ' Quick tier: every week x kind at one '
+               'rotating position; accepted sets are simulated largest deviation first (quick: at most 4 runs, one per kind).',
+               mismatches=bad, branches=br)
+
+
+KNOWN_NAN_SETPOINT = True      # unchanged tree: nan accepted as a set point, run ends in the model's own FATAL ERROR (recorded)
+
+
 def run(chk):
     chk.proof(MODULE, THEOREMS, extra_modules=['UwgVerif.Props.C06'])
     if chk.tier == 'thorough':
@@ -1219,6 +1290,7 @@ def run(chk):
     not_a_number_tokens(chk, uwg, work, rows)
     accepted_schedule_sets(chk, uwg, work)
     customs_in_zones(chk, uwg)
+    schedule_refusals(chk, uwg, work)
     changed_after_generate(chk, work)
     write_after_failure(chk, work)
     float_step_loop(chk, uwg)
